@@ -1317,6 +1317,37 @@ func exprTextFull(e specExpr) string {
 			as = append(as, exprTextFull(a))
 		}
 		return exprTextFull(x.fun) + "(" + strings.Join(as, ";") + ")"
+	case *eInt:
+		return x.v
+	case *eStr:
+		return strconv.Quote(x.v)
+	case *eIndex:
+		return exprTextFull(x.x) + "[" + exprTextFull(x.i) + "]"
+	case *eBinary:
+		return "(" + exprTextFull(x.x) + " " + x.op + " " + exprTextFull(x.y) + ")"
+	case *eQuant:
+		q := "exists"
+		if x.forall {
+			q = "forall"
+		}
+		for _, v := range x.vars {
+			q += " " + v.name + ":" + v.typ.String()
+		}
+		return "(" + q + " :: " + exprTextFull(x.body) + ")"
+	case *eTypeAssert:
+		return exprTextFull(x.x) + ".(" + x.typ.String() + ")"
+	case *eWild:
+		return "_"
+	case *eSlice:
+		t := exprTextFull(x.x) + "["
+		if x.lo != nil {
+			t += exprTextFull(x.lo)
+		}
+		t += ":"
+		if x.hi != nil {
+			t += exprTextFull(x.hi)
+		}
+		return t + "]"
 	}
-	return "?"
+	return fmt.Sprintf("?%p", e)
 }
